@@ -35,7 +35,9 @@ type pairResult struct {
 	declOK    []token.Pos
 	blocksAt0 []token.Pos // stores to scope.blocks at depth 0
 	blocksOK  []token.Pos
-	callDepth map[*ast.CallExpr]int // minimal depth at each call
+	callDepth map[*ast.CallExpr]int                 // minimal depth at each call
+	callDpop  map[*ast.CallExpr]int                 // minimal number of deferred pops registered at each call
+	callRegs  map[*ast.CallExpr][]map[string]string // register snapshots at each call (for rules layered on the pairing run)
 	// state that this function changes and puts back by a plain (non-deferred) statement: such a
 	// restore is skipped when a panic unwinds through the function (input of C13.restore / C10.reset)
 	plainRestore map[string]token.Pos // field → a plain restoring store
@@ -77,6 +79,7 @@ func isRestoreSource(p *an.Prog, f *an.Fn, e ast.Expr, field string) (types.Obje
 func explorePairs(p *an.Prog, f *an.Fn) *pairResult {
 	info := f.Info()
 	res := &pairResult{fn: f, fieldBad: map[string]pairFinding{}, fieldSeen: map[string]bool{}, callDepth: map[*ast.CallExpr]int{},
+		callDpop: map[*ast.CallExpr]int{}, callRegs: map[*ast.CallExpr][]map[string]string{},
 		pushSites: map[token.Pos]bool{}, popSites: map[token.Pos]bool{}, plainRestore: map[string]token.Pos{}}
 	depthCap := 3
 	negReported := false
@@ -85,6 +88,16 @@ func explorePairs(p *an.Prog, f *an.Fn) *pairResult {
 			d := st.Int("depth")
 			if cur, ok := res.callDepth[call]; !ok || d < cur {
 				res.callDepth[call] = d
+			}
+			if cur, ok := res.callDpop[call]; !ok || st.Int("dpop") < cur {
+				res.callDpop[call] = st.Int("dpop")
+			}
+			if an.IsCallTo(info, call, execList) && len(res.callRegs[call]) < 64 {
+				snap := map[string]string{}
+				for k, v := range st.Regs {
+					snap[k] = v
+				}
+				res.callRegs[call] = append(res.callRegs[call], snap)
 			}
 			switch an.CalleeName(info, call) {
 			case newScopeFn:
@@ -150,7 +163,11 @@ func explorePairs(p *an.Prog, f *an.Fn) *pairResult {
 				if rhs != nil {
 					if o, ok := isRestoreSource(p, f, rhs, pf); ok {
 						// restoring store: from the local saved on this path, or from a captured save of the enclosing function
-						if _, isLocal := ownLocal(f, o); !isLocal || st.Get("saved:"+pf) == o.Name() {
+						// a save captured from the enclosing function is only meaningful when this closure runs at
+						// the exit of that very activation (it is the operand of a defer statement there); a closure
+						// that escapes (e.g. the content closure) runs later and must save for itself
+						_, isLocal := ownLocal(f, o)
+						if (!isLocal && deferredInParent(f)) || (isLocal && st.Get("saved:"+pf) == o.Name()) {
 							if st.Get("cur:"+pf) != "" {
 								res.plainRestore[pf] = lhs.Pos()
 							}
@@ -205,6 +222,21 @@ func explorePairs(p *an.Prog, f *an.Fn) *pairResult {
 		}
 	}
 	return res
+}
+
+// deferredInParent: f is a function literal that is the callee of a defer statement of its enclosing function.
+func deferredInParent(f *an.Fn) bool {
+	if f.Lit == nil || f.Parent == nil {
+		return false
+	}
+	found := false
+	an.InspectOwn(f.Parent, func(n ast.Node) bool {
+		if d, ok := n.(*ast.DeferStmt); ok && an.Unparen(d.Call.Fun) == ast.Expr(f.Lit) {
+			found = true
+		}
+		return true
+	})
+	return found
 }
 
 func ownLocal(f *an.Fn, o types.Object) (types.Object, bool) {
